@@ -157,7 +157,7 @@ def _tail_ok(chain):
     return True
 
 
-_ORDER_SENSITIVE = {"cumulative", "overlap", "head"}
+_ORDER_SENSITIVE = {"cumulative", "overlap", "head", "dropdup"}  # drop_duplicates(subset) keeps the FIRST row per key
 _TIE_MAKERS = {"clip", "diff1", "shift1", "fillna0", "abs", "assign_a", "astype_f", "cumsum", "add1", "mappart", "assign_z"}
 
 
